@@ -221,13 +221,15 @@ def instances(tier):
         for mutation in ("substitute", "delete", "insert"):
             if q and service in ("write-property", "read-property-multiple") and mutation == "insert":
                 continue
-            parts = 1 if mutation == "delete" else (3 if q else 4)
+            flen = len(VALID[service](0)) + 2
+            parts = 1 if mutation == "delete" else max(3, flen // (4 if q else 3))
             for i in range(parts):
                 out.append(Inst(frame_mutation, dict(service=service, mutation=mutation, part=(i, parts)),
                                 budget=80 if q else 900, path_timeout=60,
                                 label="%s,%s,part%d/%d" % (service, mutation, i + 1, parts)))
     if q:
-        out.append(Inst(layer_noise, dict(n=3, first=None), budget=80))
+        out.append(Inst(layer_noise, dict(n=2, first=None), budget=80))
+        out.append(Inst(layer_noise, dict(n=3, first=1), budget=80, label="n=3,version-1"))
     else:
         out.append(Inst(layer_noise, dict(n=3, first=None), budget=300))
         out.append(Inst(layer_noise, dict(n=6, first=1), budget=900, label="n=6,version-1"))
